@@ -129,19 +129,28 @@ def r1_inverse(rep, facts, g, a):
                   f'the \\u fallback is taken for non-ASCII bytes {fmt_set({x for x in fb if x >= 0x80})}: a byte of a multi-byte character would be written as its own scalar', loc)
 
 
-def metrics_tables(facts, which):
+HIGH_SAMPLES = [chr(c) for c in (0x80, 0xE9, 0xFF, 0x7FF, 0x800, 0x20AC, 0xFFFF, 0x10000, 0x1F600, 0x10FFFF)]
+
+
+def metrics_of(facts, which, s):
+    """fields of ValueMetrics / KeyMetrics computed by `calculate` for the string s (the function is evaluated, whatever its shape)"""
     b = facts.body(W + which + '::calculate')
-    m = big_byte_match(b, 4)
-    it = FxInterp(Evaluator(facts))
-    bvar = peel(m['scrut'])['path']
+    r = FxInterp(Evaluator(facts)).apply_fn(b, [s])
+    if not (isinstance(r, tuple) and len(r) == 3 and r[0] == 'struct' and isinstance(r[2], dict)):
+        raise Unanalysable(f'{which}::calculate does not evaluate to a struct')
+    return r[2]
+
+
+def metrics_tables(facts, which):
+    """flag name -> bytes whose presence raises it (decided on one-character strings; every byte of a multi-byte sample character that raises it)"""
+    b = facts.body(W + which + '::calculate')
+    base = metrics_of(facts, which, '')
     flags = {}
-    for v in range(256):
-        a, br = it.effects(m, {bvar: v})
-        for name, val in a.items():
-            if val is True:
-                flags.setdefault(name, set()).add(v)
-            else:
-                raise Unanalysable(f'{which}: flag {name} assigned {val!r}')
+    for c in [chr(v) for v in range(128)] + HIGH_SAMPLES:
+        m = metrics_of(facts, which, c)
+        for name, val in m.items():
+            if val != base.get(name) and name != 'unquoted':
+                flags.setdefault(name, set()).update(c.encode('utf-8'))
     return b, {k: frozenset(v) for k, v in flags.items()}
 
 
@@ -184,25 +193,28 @@ def r2_unescaped(rep, facts, g, a):
               f'a literal key is offered for keys containing {fmt_set(extra)} (LF must count as needing an escape code)', kloc)
     rep.check(R, 'KeyMetrics|quote-flags', kflags.get('single_quotes') == apos and kflags.get('double_quotes') == quote and kflags.get('escape') == cc(a, 'escape'),
               'quote / backslash flags', f'key flags: {[(k, fmt_set(v)) for k, v in kflags.items()]}', kloc)
-    # unquoted predicate: the matches! over the byte
-    unq = None
-    for n in walk(kb['body']):
-        if n.get('k') == 'if' and any(x.get('k') == 'assign' and peel(x['lhs']).get('name') == 'unquoted' for x in walk(n['then'])):
-            c = peel(n['cond'])
-            it = Interp(Evaluator(facts))
-            bl = [x for x in walk(c) if x.get('k') == 'path' and x.get('res') == 'Local']
-            var = bl[0]['path']
-            try:
-                unq = frozenset(v for v in range(256) if not it.run(c, {var: v}))
-            except Unanalysable as e:
-                rep.incomplete(R, 'KeyMetrics|unquoted-class', str(e), kloc)
+    # bare keys: decided on the value of `unquoted` for one-character keys, the empty key and two-character combinations
     from .rules_c01 import rep_elem_class
     exp = rep_elem_class(a, 'unquoted-key')
-    rep.check(R, 'KeyMetrics|unquoted-class', unq == exp, fmt_set(unq) if unq is not None else 'not found',
-              f'bare keys are offered for characters {fmt_set(unq) if unq is not None else "?"}, the parser takes {fmt_set(exp)}', kloc)
-    empty = any(n.get('k') == 'assign' and peel(n['lhs']).get('name') == 'unquoted' and peel(n['rhs']).get('k') == 'unary' and
-                peel(peel(n['rhs'])['a']).get('name') == 'is_empty' for n in walk(kb['body']))
-    rep.check(R, 'KeyMetrics|empty-not-bare', empty, 'unquoted = !s.is_empty()', 'the empty key may be written bare (1*( unquoted-key-char ) requires one character)', kloc)
+    unq = None
+    try:
+        unq = frozenset(v for v in range(128) if metrics_of(facts, 'KeyMetrics', chr(v))['unquoted'] is True)
+        high = [c for c in HIGH_SAMPLES if metrics_of(facts, 'KeyMetrics', c)['unquoted'] is not False]
+        if high:
+            unq = unq | frozenset(x for c in high for x in c.encode('utf-8'))
+        pairs_bad = []
+        for x in ('a', '-', '_', '9', ' ', '.', '\u00e9', '"'):
+            for y in ('Z', '0', ' ', '\n', "'"):
+                want = all(ord(ch) in exp for ch in x + y)
+                if (metrics_of(facts, 'KeyMetrics', x + y)['unquoted'] is True) != want:
+                    pairs_bad.append(x + y)
+        empty = metrics_of(facts, 'KeyMetrics', '')['unquoted'] is False
+    except Unanalysable as e:
+        rep.incomplete(R, 'KeyMetrics|unquoted-class', str(e), kloc)
+        return
+    rep.check(R, 'KeyMetrics|unquoted-class', unq == exp and not pairs_bad, fmt_set(unq),
+              f'bare keys are offered for characters {fmt_set(unq)}' + (f' (and for the keys {pairs_bad[:4]!r})' if pairs_bad else '') + f', the parser takes {fmt_set(exp)}', kloc)
+    rep.check(R, 'KeyMetrics|empty-not-bare', empty, 'the empty key is not bare', 'the empty key may be written bare (1*( unquoted-key-char ) requires one character)', kloc)
 
 
 def subst_metrics(e):
@@ -363,7 +375,7 @@ def r4_delimiters(rep, facts, a):
     rep.check(R, 'write_toml_value|newline_prefix', ok, 'newline && is_ml', 'the leading newline is not written exactly for multi-line styles of strings containing a newline', facts.loc(b))
 
 
-def r5_totality(rep, facts):
+def r5_totality(rep, facts, a):
     R = rep.rule('C10/R5', 'a default style exists for every string: as_default / as_basic / as_ml_basic return non-Option types and every '
                  'or_else chain ends in one of them', floor=5)
     for d, ret in ((W + "TomlStringBuilder::<'s>::as_default", "toml_write::string::TomlString<'s>"), (W + "TomlStringBuilder::<'s>::as_basic", "toml_write::string::TomlString<'s>"),
@@ -374,24 +386,60 @@ def r5_totality(rep, facts):
             rep.incomplete(R, d, 'not found')
             continue
         rep.check(R, last_seg(d.split('::<')[0]) + '::' + last_seg(d) + '|non-optional', f['output'] == ret, f['output'], f'`{d}` returns `{f["output"]}`', f"{facts.rel(f['file'])}:{f['line']}")
-    for d, finals in ((W + "TomlStringBuilder::<'s>::as_default", {'as_ml_basic', 'as_basic'}), (W + "TomlKeyBuilder::<'s>::as_default", {'as_basic'})):
-        b = facts.body(d)
-        top = peel(b['body'].get('expr', {}))
-        ok = top.get('k') == 'mcall' and top.get('name') == 'unwrap_or_else'
-        fin = set()
-        if ok:
-            fin = {n.get('name') for n in walk(top['args'][0]) if n.get('k') == 'mcall'} - {'unwrap_or_else'}
-        rep.check(R, last_seg(d.split('::<')[0]) + '::as_default|chain-ends-total', ok and fin == finals, f'unwrap_or_else -> {sorted(fin)}',
-                  f'the default chain of `{d}` ends in {sorted(fin)}, expected the total styles {sorted(finals)}', facts.loc(b))
-    # value default: multi-line fallback exactly when the string contains a newline
-    b = facts.body(W + "TomlStringBuilder::<'s>::as_default")
-    okn = False
-    for n in walk(b['body']):
-        if n.get('k') == 'if' and peel(n['cond']).get('k') == 'field' and peel(n['cond']).get('name') == 'newline':
-            t = {x.get('name') for x in walk(n['then']) if x.get('k') == 'mcall'}
-            e = {x.get('name') for x in walk(n.get('else', {})) if x.get('k') == 'mcall'}
-            okn = t == {'as_ml_basic'} and e == {'as_basic'}
-    rep.check(R, 'TomlStringBuilder::as_default|newline-fallback', okn, 'newline -> as_ml_basic, else as_basic', 'the total fallback no longer picks the multi-line form for strings with a newline', facts.loc(b))
+    # the default style of every sample string / key is one the grammar accepts for it: decided by evaluating `new(s).as_default()` (whatever
+    # the shape of the chain) on strings made of the characters that matter to a style, and judging the chosen style against the ABNF classes
+    from .den import EvalPanic
+    from .rules_c01 import rep_elem_class
+    pieces = ['a', "'", "''", "'" * 3, '"', '"' * 3, '\\', '\n', '\x01', '\t', ' ', 'é', '\x7f', '-', '\r']
+    samples = [''] + pieces + [x + y for x in pieces for y in pieces]
+    lit = cc(a, 'literal-char')
+    bare = rep_elem_class(a, 'unquoted-key')
+
+    def fits(enc, text, key):
+        bs = text.encode('utf-8')
+        if enc is None:
+            return bool(bs) and all(x in bare for x in bs)
+        if enc.endswith('MlLiteralString'):
+            return all(x in lit or x in (0x27, 0x0A) for x in bs) and "'" * 3 not in text and not key
+        if enc.endswith('LiteralString'):
+            return all(x in lit for x in bs)
+        if enc.endswith('MlBasicString'):
+            return not key
+        return enc.endswith('BasicString')
+    for B, key in (("TomlStringBuilder::<'s>", False), ("TomlKeyBuilder::<'s>", True)):
+        bn, bd = facts.body(W + B + '::new'), facts.body(W + B + '::as_default')
+        bad = []
+        n_ok = 0
+        label = B.split('::<')[0]
+        try:
+            for text in samples:
+                it = FxInterp(Evaluator(facts))
+                try:
+                    r = it.apply_fn(bd, [it.apply_fn(bn, [text])])
+                except EvalPanic as ex:
+                    bad.append(f'{text!r}: panics ({ex})')
+                    continue
+                if not (isinstance(r, tuple) and len(r) == 3 and r[0] == 'struct' and 'encoding' in r[2]):
+                    bad.append(f'{text!r}: no style ({r!r})')
+                    continue
+                enc = r[2]['encoding']
+                if isinstance(enc, tuple) and enc[0] == 'ctor' and enc[1].endswith('Option::None'):
+                    enc = None
+                elif isinstance(enc, tuple) and enc[0] == 'ctor' and enc[1].endswith('Option::Some'):
+                    enc = enc[2][0][1]
+                elif isinstance(enc, tuple) and enc[0] == 'ctor':
+                    enc = enc[1]
+                if r[2].get('decoded', text) != text:
+                    bad.append(f'{text!r}: the style carries another text ({r[2].get("decoded")!r})')
+                elif not fits(enc, text, key):
+                    bad.append(f'{text!r}: written {"bare" if enc is None else "as " + last_seg(enc)}, which the grammar does not accept for it')
+                else:
+                    n_ok += 1
+        except Unanalysable as ex:
+            rep.incomplete(R, label + '::as_default|default-style-fits', f'cannot evaluate: {ex}', facts.loc(bd))
+            continue
+        rep.check(R, label + '::as_default|default-style-fits', not bad and n_ok == len(samples), f'{n_ok} sample texts: a style is chosen and the grammar accepts the text in it',
+                  f'the default style of `{label}`: ' + '; '.join(bad[:4]), facts.loc(bd))
 
 
 def r6_delegation(rep, facts):
@@ -478,7 +526,7 @@ def rules(rep, facts):
     a = Abnf()
     r3_thresholds(rep, facts, a)
     r4_delimiters(rep, facts, a)
-    r5_totality(rep, facts)
+    r5_totality(rep, facts, a)
     r7_run_metric(rep, facts)
     feats = set(facts.crates.get('toml_edit', {}).get('features', []))
     if 'toml_edit' in facts.crates and {'parse', 'display'} <= feats:
